@@ -28,6 +28,9 @@ Definition user_tdesc (d : sdesc) : tdesc :=
    elements of size es and alignment ea *)
 Definition user_sized (k : N) : sdesc :=
   {| sd_fields := fStruct "header" 8 8 :: map (fun _ => fU32 "w") (seq 0 (N.to_nat k)); sd_attr_align := 1; sd_tail := None |}.
+(* a sized type with k extra words and an `align(al)` attribute (al > 8: more strictly aligned than the structure it is cast from) *)
+Definition user_sized_al (k al : N) : sdesc :=
+  {| sd_fields := fStruct "header" 8 8 :: map (fun _ => fU32 "w") (seq 0 (N.to_nat k)); sd_attr_align := al; sd_tail := None |}.
 Definition user_dst (F es ea : N) : sdesc :=
   {| sd_fields := [fStruct "header" 8 8; fBytes "fixed" F]; sd_attr_align := 1; sd_tail := Some (es, ea) |}.
 
